@@ -449,13 +449,21 @@ func (c *ctx) entropy() {
 	if fc, fd := c.findFunc(c.inter.PkgPath, "generator", "printMagic"); fd != nil {
 		good := false
 		ast.Inspect(fd.Body, func(n ast.Node) bool {
+			var at ast.Node
 			if call, ok := n.(*ast.CallExpr); ok && fullName(astx.Callee(fc.pkg.TypesInfo, call)) == "fmt.Sprintf" {
-				if s, ok := constStr(fc, call.Args[0]); ok && strings.HasPrefix(strings.TrimLeft(s, "\n"), "//") && !strings.Contains(strings.TrimLeft(s, "\n"), "\n") {
-					conds := fc.par.Known(call, fd)
-					for _, cd := range conds {
-						if se, ok := cd.E.(*ast.SelectorExpr); ok && se.Sel.Name == "sourceMapped" && cd.Pos {
-							good = true
-						}
+				if s, ok := constStr(fc, call.Args[0]); ok && isLineCommentPrefix(s) {
+					at = call
+				}
+			}
+			if b, ok := n.(*ast.BinaryExpr); ok && b.Op == token.ADD {
+				if s, ok := constStr(fc, b.X); ok && isLineCommentPrefix(s) {
+					at = b
+				}
+			}
+			if at != nil {
+				for _, cd := range fc.par.Known(at, fd) {
+					if se, ok := cd.E.(*ast.SelectorExpr); ok && se.Sel.Name == "sourceMapped" && cd.Pos {
+						good = true
 					}
 				}
 			}
@@ -587,6 +595,12 @@ func isLvalueOf2(fc *fileCtx, se ast.Expr) bool {
 }
 
 // magicUseOK: the value read flows only into a comparison, a string predicate, or a comment-only format.
+// isLineCommentPrefix: after leading newlines the text opens a // comment and stays on that line.
+func isLineCommentPrefix(s string) bool {
+	t := strings.TrimLeft(s, "\n")
+	return strings.HasPrefix(t, "//") && !strings.Contains(t, "\n")
+}
+
 func (c *ctx) magicUseOK(fc *fileCtx, e ast.Expr) bool {
 	info := fc.pkg.TypesInfo
 	var n ast.Node = e
@@ -601,6 +615,10 @@ func (c *ctx) magicUseOK(fc *fileCtx, e ast.Expr) bool {
 				return true
 			}
 			if x.Op == token.ADD {
+				// "// " + token: a line comment built by concatenation
+				if s, isC := constStr(fc, x.X); isC && ast.Node(x.X) != n && isLineCommentPrefix(s) {
+					return true
+				}
 				n = x
 				continue
 			}
